@@ -66,7 +66,7 @@ impl Property for C13 {
         "C13"
     }
     fn rule(&self) -> String {
-        "Cases: (a) subject of any type/length/provenance -> to_vec and write in both endiannesses compared with model bytes (exactly ceil(n/8) bytes, surplus bits zero, Big = reversed Little) and the round trips read(write(v))==v, from_bytes(to_vec(v)) == v zero-extended to whole bytes; (b) arbitrary byte strings of 0..ceil(C/8)+2 (<=48) bytes -> from_bytes: length 8*|bytes| and exact bits, or NotEnoughCapacity iff 8*|bytes|>C; (c) read(bytes, len, endianness, reader chunking all-at-once | one byte per call) with surplus high bits SET: Err (never a panic) when the input is short or len>C, otherwise exactly len bits with the surplus discarded, exactly ceil(len/8) bytes consumed, battery clean. Enumerated: every length 0..=min(C,320) x both endiannesses x two byte patterns (0xFF.., mixed) x 19 types for (a) and (c), every byte count 0..=C/8+2 for (b). Non-trivial: len%8 != 0 with a surplus bit set in the top byte, or the vector spans several storage words. Distinct by hash of the case.".into()
+        "Cases: (a) subject of any type/length/provenance -> to_vec and write in both endiannesses compared with model bytes (exactly ceil(n/8) bytes, surplus bits zero, Big = reversed Little) and the round trips read(write(v))==v, from_bytes(to_vec(v)) == v zero-extended to whole bytes; (b) arbitrary byte strings of 0..ceil(C/8)+2 (<=48) bytes -> from_bytes: length 8*|bytes| and exact bits, or NotEnoughCapacity iff 8*|bytes|>C; (c) read(bytes, len, endianness, reader chunking all-at-once | one byte per call) with surplus high bits SET: Err (never a panic) when the input is short or len>C, otherwise exactly len bits with the surplus discarded, exactly ceil(len/8) bytes consumed, battery clean. Enumerated: every length 0..=min(C,320) x both endiannesses x two byte patterns (0xFF.., mixed) x 20 types for (a) and (c), every byte count 0..=C/8+2 for (b). Non-trivial: len%8 != 0 with a surplus bit set in the top byte, or the vector spans several storage words. Distinct by hash of the case.".into()
     }
     fn random_cases(&self, tier: Tier) -> u64 {
         tier.pick(200000, 6400000)
@@ -100,9 +100,9 @@ impl Property for C13 {
     }
     fn exhaustive_subspaces(&self, _tier: Tier) -> Vec<String> {
         vec![
-            "read: every requested length 0..=min(capacity,320) (+ capacity+1..capacity+9 for fixed types) x both endiannesses x {all-0xFF, mixed} input x both chunkings x 19 types; plus one-byte-short input at every length".into(),
-            "to_vec/write/round-trips: every length 0..=min(capacity,320) x three value classes x 19 types".into(),
-            "from_bytes: every byte count 0..=capacity/8+2 (<=42) x both endiannesses x two patterns x 19 types".into(),
+            "read: every requested length 0..=min(capacity,320) (+ capacity+1..capacity+9 for fixed types) x both endiannesses x {all-0xFF, mixed} input x both chunkings x 20 types; plus one-byte-short input at every length".into(),
+            "to_vec/write/round-trips: every length 0..=min(capacity,320) x three value classes x 20 types".into(),
+            "from_bytes: every byte count 0..=capacity/8+2 (<=42) x both endiannesses x two patterns x 20 types".into(),
         ]
     }
     fn enumerate(&self, _tier: Tier, sh: &mut Shard, f: &mut dyn FnMut(C13Case) -> bool) {
